@@ -6,8 +6,8 @@
       - reverb = the Freeverb network written with history lists (SpecFreeverb.v, growth);
     plus sample-by-sample traces of every effect against the C13 effect models ([CTrace]), which
     are the terms the C14 theorems are about. *)
-From Coq Require Import ZArith List Bool.
-From KV Require Import Base.IEEE Base.Outcome Base.Corr C13.ModelOps C19.ModelF32 C13.Run C14.SpecFreeverb.
+From Coq Require Import ZArith QArith List Bool.
+From KV Require Import Base.IEEE Base.Outcome Base.Corr C13.ModelOps C19.ModelF32 C13.Run C14.SpecFreeverb C14.SpecQ.
 Import ListNotations.
 Local Open Scope Z_scope.
 
@@ -17,6 +17,11 @@ Inductive case :=
 | CDist (hard : Z) (db : Z) (tab : list (Z * Z)) (input : list (Z * Z))
 | CEcho (D : Z) (fb : Z) (tab : list (Z * Z)) (mix : Z) (a b : Z) (N : Z)
 | CFreeverb (sr : Z) (fb damp width : Z) (mix : Z) (input : list (Z * Z))   (* f64 x3, f32; the reference network *)
+(** the harness's own binary64 evaluation of the textbook response (its reference for the measured
+    responses) against the rational evaluation of the Coq prototypes: H_proto mode k (i om) and
+    H_eq_proto kind (rA^2) q (i om); all numbers binary64 bit patterns *)
+| CSpecFilter (mode : Z) (k om : Z) (re im : Z)
+| CSpecEq (kind : Z) (rA q om : Z) (re im : Z)
 | CTrace (c : C13.Run.case).
 
 (** [10.0f32.powf(x)] as a table (argument bits, result bits) recorded from the platform's libm *)
@@ -53,6 +58,18 @@ Definition mix32 (wet dry mix : f32) : f32 :=
   add32 (mul32 wet (sqrt32 m)) (mul32 dry (sqrt32 (sub32 one32 m))).
 Definition zrange (n : Z) : list Z := map Z.of_nat (seq 0 (Z.to_nat n)).
 
+(** exact value of a finite binary64 *)
+Definition q_of_f64 (x : f64) : Q :=
+  let '(m, e) := dyadic_of x in
+  if (0 <=? e)%Z then inject_Z (m * 2 ^ e) else (m # Z.to_pos (2 ^ (- e))).
+Definition qb (bits : Z) : Q := q_of_f64 (f64_of_bits bits).
+(** |a - b|^2 <= (1e-9)^2 (1 + |a|^2) *)
+Definition cq_close (a b : CQ) : bool :=
+  let d := (fst a - fst b, snd a - snd b)%Q in
+  Qle_bool (cq_norm2 d * 1000000000000000000) (1 + cq_norm2 a).
+Definition verdict (den h spec_val : CQ) : list Z :=
+  if Qeq_bool (cq_norm2 den) 0 then [2] else if cq_close h spec_val then [1] else [0].
+
 Definition run (c : case) : list Z :=
   match c with
   | CVol db tab input =>
@@ -76,5 +93,11 @@ Definition run (c : case) : list Z :=
         (freeverb consts_f32 (fv_sizes sr fv_comb_tunings) (fv_sizes sr fv_allpass_tunings)
                   (f64_to_f32 (f64_of_bits fb)) (f64_to_f32 (f64_of_bits damp))
                   (f64_to_f32 (eff (f64_of_bits width))) (eff (f32_of_bits mix)) (frames input))
+  | CSpecFilter mode k om re im =>
+      let s := (0%Q, qb om) in
+      verdict (proto_den_Q (qb k) s) (H_proto_Q (mode_of mode) (qb k) s) (qb re, qb im)
+  | CSpecEq kind rA q om re im =>
+      let s := (0%Q, qb om) in
+      verdict (eq_den_Q (kind_of kind) (qb rA) (qb q) s) (H_eq_proto_Q (kind_of kind) (qb rA) (qb q) s) (qb re, qb im)
   | CTrace c13 => C13.Run.run c13
   end.
